@@ -158,10 +158,26 @@ Definition dispatch (a b : shape) : option arm :=
 Inductive vkern : Type :=
 | VStrict     (* add_to / sub_to / component_div: assert equal shapes (panic -> error) *)
 | VZip        (* out.iter_mut().zip(lhs.iter().zip(rhs.iter())): stops at the shorter operand *)
-| VIndex.     (* for i in 0..lhs.len() { out[i] = lhs[i] op rhs[i] }: panics iff rhs is shorter *)
+| VIndex.     (* for i in 0..lhs.len() { out[i] = lhs[i] op rhs[i] }: panics when rhs[i] is read beyond its end *)
 
 Definition map2_opt {A X} (f : A -> A -> option X) (la lb : list A) : option (list X) :=
   map_opt (fun p => f (fst p) (snd p)) (combine la lb).
+
+(* the index loop.  [sc x] is the result the scalar expression yields from the lhs element alone, without
+   reading the rhs (`false && _`, `true || _` short-circuit in Rust); None = the rhs element is read. *)
+Fixpoint index_kernel {A X} (f : A -> A -> option X) (sc : A -> option X) (la lb : list A) : option (list X) :=
+  match la with
+  | [] => Some []
+  | x :: la' =>
+      match (match lb with y :: _ => f x y | [] => sc x end), index_kernel f sc la' (tl lb) with
+      | Some v, Some vs => Some (v :: vs)
+      | _, _ => None
+      end
+  end.
+
+(* some lhs element beyond the end of the rhs needs its rhs partner *)
+Definition runs_out {A X} (sc : A -> option X) (la lb : list A) : bool :=
+  existsb (fun x => match sc x with None => true | Some _ => false end) (skipn (List.length lb) la).
 
 Definition nth2 {A X} (f : A -> A -> option X) (la lb : list A) (ka kb : nat) : option X :=
   match nth_error la ka, nth_error lb kb with
@@ -169,7 +185,7 @@ Definition nth2 {A X} (f : A -> A -> option X) (la lb : list A) (ka kb : nat) : 
   | _, _ => None
   end.
 
-Definition ibop {A X} (dflt : X) (vk : vkern) (f : A -> A -> option X) (a b : operand A)
+Definition ibop {A X} (dflt : X) (vk : vkern) (sc : A -> option X) (f : A -> A -> option X) (a b : operand A)
   : option (operand X) :=
   match dispatch (oshape a) (oshape b), a, b with
   | Some ASS, OS x, OS y => option_map OS (f x y)
@@ -187,9 +203,7 @@ Definition ibop {A X} (dflt : X) (vk : vkern) (f : A -> A -> option X) (a b : op
       | VZip =>
           option_map (fun d => out (List.app d (repeat dflt (la - List.length d))))
                      (map2_opt f (mdata ma) (mdata mb))
-      | VIndex =>
-          if Nat.ltb (List.length (mdata mb)) la then None
-          else option_map out (map2_opt f (mdata ma) (mdata mb))
+      | VIndex => option_map out (index_kernel f sc (mdata ma) (mdata mb))
       end
   | Some AMV, OM ma, OM mb =>      (* for each column of lhs: col[i] = lhs_col[i] op rhs[i] *)
       let R := mrows ma in
@@ -212,15 +226,15 @@ Definition ibop {A X} (dflt : X) (vk : vkern) (f : A -> A -> option X) (a b : op
 
 (* the class of inputs on which the implementation model leaves the specification:
    two matrices of the same storage form but different shape, given to a kernel that
-   does not compare the shapes and happens not to run out of elements *)
-Definition kf_samevec {A} (vk : vkern) (a b : operand A) : bool :=
+   does not compare the shapes and happens not to read beyond the end of the rhs *)
+Definition kf_samevec {A X} (vk : vkern) (sc : A -> option X) (a b : operand A) : bool :=
   match dispatch (oshape a) (oshape b), a, b with
   | Some AVV, OM ma, OM mb =>
       negb (Nat.eqb (mrows ma) (mrows mb) && Nat.eqb (mcols ma) (mcols mb)) &&
       match vk with
       | VStrict => false
       | VZip => true
-      | VIndex => negb (Nat.ltb (List.length (mdata mb)) (List.length (mdata ma)))
+      | VIndex => negb (runs_out sc (mdata ma) (mdata mb))
       end
   | _, _, _ => false
   end.
@@ -258,6 +272,14 @@ Definition vkern_of (o : op) (k : kind) : vkern :=
   | (Add | Sub | Div), _ => VStrict
   | (Mul | Mod), _ => VZip
   | _, _ => VIndex
+  end.
+
+(* `lhs[i] && rhs[i]` / `lhs[i] || rhs[i]` do not read rhs[i] when lhs[i] decides (payloads: bool 0/1) *)
+Definition sc_of (o : op) (p : sx) : option sx :=
+  match o, p with
+  | And, Zx 0%Z => Some (Zx 0%Z)
+  | Or, Zx 1%Z => Some (Zx 1%Z)
+  | _, _ => None
   end.
 
 (* the kind lists of the impl_*_fxn dispatchers (+ string concatenation for `+`) *)
@@ -616,8 +638,8 @@ Definition judge_core (o : op) (k : kind) (kn : string) (a b : operand sx) (t : 
         match r with
         | OErr => v_ok "rejected-shape"
         | OVal v =>
-            match ibop (dflt_payload rk) (vkern_of o k) (orc_f rkn t) a b with
-            | Some d => if kf_samevec (vkern_of o k) a b && val_eqb rk rkn d v then v_kf kf_id
+            match ibop (dflt_payload rk) (vkern_of o k) (sc_of o) (orc_f rkn t) a b with
+            | Some d => if kf_samevec (vkern_of o k) (sc_of o) a b && val_eqb rk rkn d v then v_kf kf_id
                         else v_bad "incompatible-shapes-accepted" (Ax "err")
             | None => v_bad "incompatible-shapes-accepted" (Ax "err")
             end
@@ -701,6 +723,7 @@ Definition judge_ew (x : sx) : sx :=
           end
       | _, _, _, _, _ => v_malformed
       end
+  | Lx [Lx (Ax "ew" :: _); o] => v_bad "no-observation" o     (* the harness process aborted or hung on this case *)
   | _ => v_malformed
   end.
 
